@@ -7,7 +7,7 @@ precede the single store of the new listing. Does not decide behavioural identit
 import re
 
 from lib.mir import loc
-from rules import tables
+from rules import common, tables
 
 VISIT = "<lang::line::RenumVisitor<'a> as lang::ast::Visitor>::visit_statement"
 LINE = "lang::line::RenumVisitor<'a>::line"
@@ -55,6 +55,7 @@ def run(ctx):
     rule_def(ctx, cr)
     rule_h(ctx, cr)
     rule_no_fastpath(ctx, cr)
+    rule_rewrites_when_any(ctx, cr)
     rule_renum_from(ctx, cr)
     ctx.rule("C14.i", "the columns RENUM splices at are the parser's columns, which advance by the "
              "character count of each token's LISTED text (shared with C19.b): a token measured "
@@ -231,14 +232,14 @@ def rule_c(ctx, cr):
 def rule_def(ctx, cr):
     f = cr.need_fn("mach::listing::Listing::renum")
     ctx.touch(f)
-    # C14.d
+    # C14.d  the place where the listing is replaced is only reached with step != 0 (the error
+    # test must stand before it, with this polarity: an inverted test leaves later error exits
+    # under "step == 0 is false" too, so looking at the error exits alone is not enough)
     ok = False
-    for b, code, span in f.error_codes():
-        for c in f.conds_at(b):
-            if c[0] == "eq" and re.search(r"\(arg:4 Eq const:0\)", str(c[1])) and c[2] is True:
-                ok = True
-            if c[0] == "eq" and re.search(r"\(arg:4 (Ne|Gt) const:0\)", str(c[1])) \
-                    and c[2] is False:
+    for sb, _st, _v in f.field_stores("source"):
+        for c in f.conds_at(sb):
+            m = re.match(r"^\(arg:4 (Eq|Ne|Gt|Ge|Lt|Le) const:(\d+)\)$", str(c[1]))
+            if c[0] == "eq" and m and (m.group(1), m.group(2), c[2]) in common._NONEMPTY:
                 ok = True
     ctx.check(ok, "C14.d", "Listing::renum/step-zero", f.span,
               "step == 0 is rejected with an error",
@@ -415,6 +416,20 @@ def rule_no_fastpath(ctx, cr):
               "Line::renum can return before it has parsed the line (a token-level shortcut): "
               "operands the shortcut does not recognise - a line number above 32767 is a Single "
               "literal, not an Integer - keep their old number while their target is renumbered")
+
+
+def rule_rewrites_when_any(ctx, cr):
+    """the re-lex of the rewritten text may be skipped only when the visitor found nothing"""
+    f = cr.need_fn("lang::line::Line::renum")
+    lx = f.calls_to("lang::lex::lex")
+    if not ctx.check(len(lx) == 1, "C14.g", "Line::renum/relexes", f.span,
+                     "the rewritten text is lexed once"):
+        return
+    other = common.emptiness_conds(f, lx[0].bb)[1]
+    ctx.check(not other, "C14.g", "Line::renum/rewrites-when-any", lx[0].span,
+              "the rewrite is skipped only when the visitor collected no replacement",
+              "the rewrite stands under a size test other than `not empty` (%s): lines with "
+              "that many references keep their old targets" % [str(c[1])[:90] for c in other])
 
 
 def rule_h(ctx, cr):
